@@ -418,6 +418,8 @@ class Interp:
                 c = e.args[1]
                 names_ = [x.id if isinstance(x, ast.Name) else getattr(x, "attr", None) for x in (c.elts if isinstance(c, ast.Tuple) else [c])]
                 return any(n_ in args[0]["__cls__"] for n_ in names_)
+            if fn == "iter" and len(args) == 1 and isinstance(args[0], (list, tuple, dict, set)):
+                return Gen(list(args[0]))
             if fn == "next" and args and isinstance(args[0], Gen):
                 if args[0]:
                     return args[0].pop(0)
